@@ -495,6 +495,13 @@ func TestC08(t *testing.T) {
 }
 
 func TestReplayC08(t *testing.T) {
+	var probe lmReplayFile
+	loadReplay(t, &probe)
+	if len(probe.Ops) > 0 {
+		// a history of the ledger machine (stuck/panic found by TestC08_histories)
+		lmReplay(t, "C08")
+		return
+	}
 	var c c08Case
 	loadReplay(t, &c)
 	sim.Chdir(t.TempDir())
